@@ -73,10 +73,10 @@ Proof.
   destruct Hf2' as [g2 [-> Hg2]]. rewrite (d4_chain d k s t Hch (S g2)). cbn [d4]. rewrite (chain_end k s t Hch).
   apply (body_agree fin allow_null allow_arr OR N opt Hopt_items Hopt_array Hord Heq_sym (sv_validate OR N opt defs g1) (d4 OR N defs g2)
            (fun c p' q' d' Hd' => no_important_error OR N opt defs g1 c p' q' d' (jd_nohdr fin allow_null allow_arr d' Hd'))
-           (fun _ => True) (fun _ => True) t p q d Hl); [|exact Hd|exact I| |].
+           (fun _ _ => True) (fun _ _ => True) t p q d (proj1 Hl) (fmt_clean_fits fin allow_null allow_arr t d (proj2 Hl) Hd)); [|exact Hd| |].
   - apply (proj1 (kids_kids2 _ t)). eapply kids_impl; [|exact Kd]. intros c Hcc p' q' d' Hd' _. apply IH; [exact Hcc | lia | exact Hg2 | exact Hd'].
-  - intros id l _. apply Forall_forall. intros x _. exact I.
-  - intros id m _. apply Forall_forall. intros x _. exact I.
+  - intros c _. exact I.
+  - intros c v _. exact I.
 Qed.
 
 End Ref.
